@@ -3,7 +3,7 @@
    proofs live in coq/Models/*.v. *)
 From Coq Require Import Reals Lra List.
 From Coquelicot Require Import Coquelicot.
-From PG Require Import Models.PyReal Gen.FormulasGen Models.Henry Models.Langmuir Models.DSLangmuir Models.TSLangmuir Models.BET Models.GAB Models.Quadratic Models.TemkinApprox Models.Freundlich Models.Toth Models.DR Models.DA Models.JensenSeaton Models.Virial Models.VST.
+From PG Require Import Models.PyReal Gen.FormulasGen Models.Henry Models.Langmuir Models.DSLangmuir Models.TSLangmuir Models.BET Models.GAB Models.Quadratic Models.TemkinApprox Models.Freundlich Models.Toth Models.DR Models.DA Models.JensenSeaton Models.Virial Models.VST Models.ZeroPoint.
 Import ListNotations.
 Open Scope R_scope.
 
@@ -967,3 +967,45 @@ Print Assumptions WVST_root_unique_from_monotone.
 Example FHVST_hyps_sat : FHVST_bounds 2 1 0 /\ FHVST_pressure_def 2 1 0 1 /\ FHVST_pressure 2 1 0 1 = 2.
 Proof. exact FHVST_hyps_sat. Qed.
 Print Assumptions FHVST_hyps_sat.
+
+(* ======== ZeroPoint: the four models whose pressure() ends with the nan_to_num guard ======== *)
+(* For EVERY parameter vector inside the declared bounds - including the degenerate points C = N, C = 1, Kb = 0, K = 0, n_m = 0 where
+   the quotient is 0/0 - the zero point is mapped to itself in both orders, with all sqrt / denominator side conditions proved.
+   (Since c2b035c the guard is `nan_to_num(res)` without copy=False and works for Python floats, numpy scalars and 0-d arrays too; the
+   translator refuses the old spelling, and the harness evaluates the zero point with every input kind.) *)
+Theorem BET_zero_roundtrip : forall n_m C N, BET_bounds n_m C N ->
+  BET_loading_def n_m C N 0 /\ BET_pressure_def n_m C N (BET_loading n_m C N 0) /\
+  BET_pressure n_m C N (BET_loading n_m C N 0) = 0 /\
+  BET_loading n_m C N (BET_pressure n_m C N 0) = 0.
+Proof. exact BET_zero_roundtrip. Qed.
+Print Assumptions BET_zero_roundtrip.
+Theorem GAB_zero_roundtrip : forall n_m C K, GAB_bounds n_m C K ->
+  GAB_loading_def n_m C K 0 /\ GAB_pressure_def n_m C K (GAB_loading n_m C K 0) /\
+  GAB_pressure n_m C K (GAB_loading n_m C K 0) = 0 /\
+  GAB_loading n_m C K (GAB_pressure n_m C K 0) = 0.
+Proof. exact GAB_zero_roundtrip. Qed.
+Print Assumptions GAB_zero_roundtrip.
+Theorem DSLangmuir_zero_point : forall n_m1 K1 n_m2 K2, DSLangmuir_bounds n_m1 K1 n_m2 K2 ->
+  DSLangmuir_pressure n_m1 K1 n_m2 K2 0 = 0 /\ DSLangmuir_pressure_def n_m1 K1 n_m2 K2 0.
+Proof. exact DSLangmuir_zero_point. Qed.
+Print Assumptions DSLangmuir_zero_point.
+Theorem DSLangmuir_zero_roundtrip : forall n_m1 K1 n_m2 K2, DSLangmuir_bounds n_m1 K1 n_m2 K2 ->
+  DSLangmuir_loading_def n_m1 K1 n_m2 K2 0 /\ DSLangmuir_pressure_def n_m1 K1 n_m2 K2 (DSLangmuir_loading n_m1 K1 n_m2 K2 0) /\
+  DSLangmuir_pressure n_m1 K1 n_m2 K2 (DSLangmuir_loading n_m1 K1 n_m2 K2 0) = 0 /\
+  DSLangmuir_loading n_m1 K1 n_m2 K2 (DSLangmuir_pressure n_m1 K1 n_m2 K2 0) = 0.
+Proof. exact DSLangmuir_zero_roundtrip. Qed.
+Print Assumptions DSLangmuir_zero_roundtrip.
+(* Quadratic: the library bounds only say 0 <= n_m; 0 <= Ka is the model's own domain (for Ka < 0 see Quadratic_zero_point_negKa) *)
+Theorem Quadratic_zero_point_all : forall n_m Ka Kb, Quadratic_bounds n_m Ka Kb -> 0 <= Ka ->
+  Quadratic_pressure n_m Ka Kb 0 = 0 /\ Quadratic_pressure_def n_m Ka Kb 0.
+Proof. exact Quadratic_zero_point_all. Qed.
+Print Assumptions Quadratic_zero_point_all.
+Theorem Quadratic_zero_roundtrip : forall n_m Ka Kb, Quadratic_bounds n_m Ka Kb -> 0 <= Ka ->
+  Quadratic_loading_def n_m Ka Kb 0 /\ Quadratic_pressure_def n_m Ka Kb (Quadratic_loading n_m Ka Kb 0) /\
+  Quadratic_pressure n_m Ka Kb (Quadratic_loading n_m Ka Kb 0) = 0 /\
+  Quadratic_loading n_m Ka Kb (Quadratic_pressure n_m Ka Kb 0) = 0.
+Proof. exact Quadratic_zero_roundtrip. Qed.
+Print Assumptions Quadratic_zero_roundtrip.
+Example BET_zero_roundtrip_degenerate_example :
+  BET_bounds 5 (1/2) (1/2) /\ BET_pressure 5 (1/2) (1/2) (BET_loading 5 (1/2) (1/2) 0) = 0.
+Proof. exact BET_zero_roundtrip_degenerate_example. Qed.
